@@ -204,7 +204,8 @@ def build_net(src, sinks, kinds):
         else:
             vr[v] = {}
             expected.add((chip, None, v))
-    net = Net("s", sink_vs)
+    # the weight of a net says nothing about where its tree may go
+    net = Net("s", sink_vs, (1.0, 0.0, 3.0)[len(sink_vs) % 3])
     return vr, [net], constraints, placements, allocations, expected
 
 
@@ -226,7 +227,7 @@ def build_two_nets(src, sinks, kinds):
         vr[v] = {Cores: 1}
         sv.append(v)
         exp2.add((tuple(chip), 6 + 12 + i, v))
-    nets.append(Net("s2", sv))
+    nets.append(Net("s2", sv, 0.0))
     return vr, nets, cons, pl, al, [exp, exp2]
 
 
